@@ -273,6 +273,32 @@ pub fn negative_table() -> Vec<Negative> {
             }
         }
     }
+    // aggregate initialisers with more elements than the target has room for (also where the surplus is not even convertible)
+    for k in ["bool", "int", "uint", "half", "float", "double"] {
+        let v = value_of(k, 1, 1);
+        let pre = format!("struct Pair {{ {} a; {} b; }};\nstruct Other {{ int q; }};\n", k, k);
+        let cases: Vec<(&'static str, String, String)> = vec![
+            ("scalar-from-two-values", format!("{} x = {{ {}, {} }};", k, v, v), format!("{} x = {{ {} }};", k, v)),
+            ("scalar-from-three-values", format!("{} x = {{ {}, {}, {} }};", k, v, v, v), format!("{} x = {{ {} }};", k, v)),
+            ("scalar-with-unconvertible-surplus", format!("Other o; {} x = {{ {}, o }};", k, v), format!("Other o; {} x = {{ {} }};", k, v)),
+            ("vector-element-from-two-values", format!("{}2 x = {{ {{ {}, {} }}, {} }};", k, v, v, v), format!("{}2 x = {{ {{ {} }}, {} }};", k, v, v)),
+            ("array-element-from-two-values", format!("{} x[2] = {{ {}, {{ {}, {} }} }};", k, v, v, v), format!("{} x[2] = {{ {}, {{ {} }} }};", k, v, v)),
+            ("struct-member-from-two-values", format!("Pair x = {{ {}, {{ {}, {} }} }};", v, v, v), format!("Pair x = {{ {}, {{ {} }} }};", v, v)),
+            ("vector-from-too-many-values", format!("{}2 x = {{ {}, {}, {} }};", k, v, v, v), format!("{}2 x = {{ {}, {} }};", k, v, v)),
+            ("array-from-too-many-values", format!("{} x[2] = {{ {}, {}, {} }};", k, v, v, v), format!("{} x[2] = {{ {}, {} }};", k, v, v)),
+            ("struct-from-too-many-values", format!("Pair x = {{ {}, {}, {} }};", v, v, v), format!("Pair x = {{ {}, {} }};", v, v)),
+        ];
+        for (class, bad, good) in cases {
+            for global in [false, true] {
+                let make = |decl: &str| if global { format!("{}static {}\n", pre, decl.replace("Other o; ", "static Other o;\nstatic ")) } else { format!("{}void test()\n{{\n    {}\n}}\n", pre, decl) };
+                out.push(Negative {
+                    class: leak(format!("initialiser-with-surplus-elements:{}:{}:{}", class, if global { "global" } else { "local" }, k)),
+                    bad: make(&bad),
+                    twin: make(&good),
+                });
+            }
+        }
+    }
     // argument counts and unconvertible argument types, wrong return types
     let scalars = ["bool", "int", "uint", "half", "float", "double"];
     for k in scalars {
